@@ -50,14 +50,31 @@ def main():
                 return "target"
         return "elsewhere"
 
+    def hard_stop():
+        """kill -9 / OOM / power loss: nothing unwinds - no finally block, no context manager exit, no atexit handler runs."""
+        result["exit"] = 137
+        result["exc"] = {"type": "InjectedKill", "mro": [], "msg": "process killed at write event %s" % (fault or {}).get("at"), "module": "sim"}
+        result["writes_on_target"] = state["writes_on_target"]
+        result["trace"] = [t for t in result["trace"] if t[2] == "target"][:400]
+        result["stdout"] = ""
+        state["armed"] = False
+        targets.clear()
+        try:
+            with open(out_path, "w") as f_:
+                json.dump(result, f_)
+        finally:
+            os._exit(137)
+
     def on_write(event, path):
         cls = classify(path)
         result["trace"].append([event, str(path), cls])
         if cls == "target":
             state["writes_on_target"] += 1
-            if fault and fault["kind"] in ("crash", "enospc", "eio") and state["armed"] and state["writes_on_target"] == fault["at"]:
+            if fault and fault["kind"] in ("crash", "enospc", "eio", "kill") and state["armed"] and state["writes_on_target"] == fault["at"]:
                 state["armed"] = False
                 result["injected"] = {"kind": fault["kind"], "at": fault["at"], "event": event, "path": str(path)}
+                if fault["kind"] == "kill":
+                    hard_stop()
                 if fault["kind"] == "crash":
                     raise InjectedCrash("injected crash at write event %d" % fault["at"])
                 if fault["kind"] == "enospc":
@@ -159,6 +176,37 @@ def main():
                 if config_dict != before:
                     result["config_mutated"] = {"before": repr(before)[:500], "after": repr(config_dict)[:500]}
         setattr(acm, fname, wrapped)
+
+    # ---- the configuration dict over the WHOLE run (not only while settings are read): client()/graphql_schema() get the dict
+    # that get_config_dict() returned; it must come back unchanged.  With job["reuse_config_object"] every generation of this
+    # interpreter that names the same configuration file is handed the very same dict object (library use: the caller loads
+    # its configuration once and generates several times).
+    real_get_config_dict = acm.get_config_dict
+    cfg_cache = {}
+
+    def get_config_dict(config_file_name=None):
+        key = (os.getcwd(), config_file_name)
+        if job.get("reuse_config_object") and key in cfg_cache:
+            return cfg_cache[key]
+        d = real_get_config_dict(config_file_name)
+        cfg_cache[key] = d
+        return d
+    acm.get_config_dict = get_config_dict
+    for fname in ("client", "graphql_schema"):
+        orig_run = getattr(acm, fname)
+
+        def wrapped_run(config_dict, _orig=orig_run, _fname=fname):
+            before = copy.deepcopy(config_dict)
+            try:
+                return _orig(config_dict)
+            finally:
+                try:
+                    changed = config_dict != before
+                except Exception:  # noqa
+                    changed = True
+                if changed and not result.get("config_mutated"):
+                    result["config_mutated"] = {"during": _fname + "()", "before": repr(before)[:500], "after": repr(config_dict)[:500]}
+        setattr(acm, fname, wrapped_run)
 
     # ---- http seam
     http_ctx = None
